@@ -1,7 +1,9 @@
 """C06 - resources never exceed capacity, grant in queue order, never idle a slot."""
 import re
 from harness import kprops, kbridge
-from harness.kbridge import EXTRA_MODULES, TRUSTED_EXTRA, prepare
+from harness.kbridge import TRUSTED_EXTRA
+EXTRA_MODULES = kbridge.MODULES['C06']      # this property's bridge modules only (py2lean/SCOPE.md)
+prepare = kbridge.prepare_for('C06')    # regenerates only the generated files this property owns
 from vlib.util import unbits
 ASSUMPTIONS = ['each process holds or awaits at most one request per resource at a time; holders release before they terminate',
                'requests are created inside processes (PreemptiveResource needs the requesting process)']
@@ -132,7 +134,7 @@ def oracle_preempted_cause(case, lines, runner=None):
     return []
 
 def run(ctx):
-    res = kprops.run_kernel(ctx, 'C06', SPEC, 1500, 40000, oracles=[oracle_capacity_and_idle, oracle_grant_order, oracle_release, oracle_preemption, oracle_release_completes, oracle_preempted_cause],
+    res = kprops.run_kernel(ctx, 'C06', SPEC, 1500, 40000, attribute=kprops.stop_is_not_the_cause, oracles=[oracle_capacity_and_idle, oracle_grant_order, oracle_release, oracle_preemption, oracle_release_completes, oracle_preempted_cause],
                              nontrivial=lambda c, lines: any('q[' in l and 'q[]' not in l for l in lines),
                              rule='seeded request/hold/release/cancel/with-exit histories of 2-8 processes on 1-2 resources of the three classes; non-trivial = distinct history in which some request had to queue')
     res['coverage'].update(kbridge.coverage('C06'))
